@@ -724,6 +724,17 @@ func TestC07(t *testing.T) {
 					if m.Op != 2 || in.srcIP != n.host {
 						return "c07-dhcp-reply-fields@dhcp", fmt.Sprintf("reply op=%d from %v", m.Op, in.srcIP)
 					}
+					// where the reply goes: to the limited broadcast address and the broadcast MAC, or - only to a client
+					// that wrote from an address of its own (renewing / rebinding / releasing; RFC 2131 4.1 unicasts to a
+					// non-zero ciaddr whatever the broadcast flag says) - to that client's MAC and a unicast address;
+					// never a mixture of the two, never another station
+					cmac := hMACs[dClients[op.C%dN].mac]
+					bc := in.eth.Dst == ref.MAC{0xff, 0xff, 0xff, 0xff, 0xff, 0xff} && in.dstIP == netip.AddrFrom4([4]byte{255, 255, 255, 255})
+					uc := in.eth.Dst == cmac && in.dstIP.Is4() && in.dstIP != netip.AddrFrom4([4]byte{255, 255, 255, 255}) && !in.dstIP.IsUnspecified()
+					hasSrc := (op.K == "request" && (op.Kind == "renew" || op.Kind == "rebind" || op.Kind == "renew-other")) || op.K == "release"
+					if !(bc || (uc && hasSrc)) {
+						return "c07-dhcp-reply-destination@dhcp", fmt.Sprintf("reply to %v (client MAC %x, broadcast flag %v) sent to %x / %v", op, cmac[:], op.Bcast, in.eth.Dst[:], in.dstIP)
+					}
 				case in.udp.Sport == 68 && in.udp.Dport == 67: // client-side frames towards the real server
 					if m.Op != 1 || in.dstIP != n.router || in.eth.Dst != hMACs[mRouter] || in.srcIP != n.host {
 						return "c07-dhcp-client-fields@dhcp", fmt.Sprintf("client frame op=%d %v->%v (%x)", m.Op, in.srcIP, in.dstIP, in.eth.Dst)
